@@ -197,6 +197,17 @@ func c06RunMode(w *W, liveness bool) {
 	d := dq.Distributor()
 	nClients := 2 + simrt.Choose(3)
 	next := 0
+	// the deque may already hold items when the concurrent phase starts
+	for k := simrt.Choose(4); k > 0; k-- {
+		next++
+		name, f := "PushBack", dq.PushBack
+		if simrt.Choose(2) == 1 {
+			name, f = "PushFront", dq.PushFront
+		}
+		op := h.Invoke(0, qIn{name, next})
+		err := f(next)
+		h.Return(op, qOut{Err: errClass(err)})
+	}
 	var calls []*blockingCall
 	mk := func() *blockingCall {
 		b := &blockingCall{}
